@@ -13,6 +13,9 @@ from rustscan import items, lex_spans, strip_attrs_and_docs, ScanError, match_cl
 class LostAnchor(Exception):
     pass
 
+# optional extraction groups -> the contract container they feed
+GROUP_CONTAINERS = {'flags': 'Rule'}
+
 # --------------------------------------------------------------------------------------
 # contract files
 # --------------------------------------------------------------------------------------
@@ -111,6 +114,7 @@ class Out:
         self.log = []            # extraction log (rules applied)
         self.force_assume = {}   # qualified fn name -> reason (set by the driver after Verus rejected the fn)
         self.unreachable = {}    # qualified fn name -> reason
+        self.failed_groups = {}  # optional group -> reason
     def emit(self, text):
         for l in text.split('\n'):
             self.lines.append(l)
@@ -275,7 +279,14 @@ def insert_loop_contracts(fn, body, contract, out_clause_sink):
                 j += 1
             if j >= n: raise LostAnchor('%s: loop without body' % fn)
             if ordinal in contract.loops:
-                chunks.append(body[last:spans[j][1]].rstrip() + '\n')
+                head = body[last:spans[j][1]]
+                if body[a:b] == 'for':
+                    # X9: a `for` loop under contract gets the ghost iterator name `it` (`for x in it: <expr>`)
+                    kin = next((q for q in range(k + 1, j) if spans[q][0] == 'word' and body[spans[q][1]:spans[q][2]] == 'in'), None)
+                    if kin is None: raise LostAnchor('%s: for loop without `in`' % fn)
+                    cut = spans[kin][2] - last
+                    head = head[:cut] + ' it:' + head[cut:]
+                chunks.append(head.rstrip() + '\n')
                 chunks.append(('loop', ordinal))
                 # X11 also applies to loop bodies (Verus verifies them in isolation)
                 chunks.append('{ proof { broadcast use lib::group_lib; }')
@@ -336,6 +347,10 @@ def emit_fn(out, item, relfile, container, contracts, in_trait_decl=False, inden
         sig = re.sub(r'\bfn ' + name + r'\b', 'fn ' + newname, sig)
         for a, b in as_free.get('subst', []):
             sig = sig.replace(a, b)
+        for a, b in as_free.get('body_subst', []):
+            # X14: a method emitted as a function of the one field it reads: `self.<field>` -> the parameter
+            if body is None or body.count(a) != 1: raise LostAnchor('%s: X14 expects exactly one %r in the body' % (qual, a))
+            body = body.replace(a, b)
         if not sig.lstrip().startswith('pub'):
             sig = 'pub ' + sig.lstrip()
         out.log.append({'rule': 'X6', 'fn': qual, 'what': 'trait-impl method emitted as free fn %s; %s' % (newname, as_free.get('subst', []))})
@@ -460,11 +475,29 @@ def extract(repo, plan, contracts, out):
         its = find_items(src, relfile)
         out.emit('// ===== from %s =====' % relfile)
         for want in entry['items']:
+            grp = want.get('group')
+            if grp and grp in out.failed_groups:
+                continue
             rx = re.compile(want['match'])
             found = [it for it in its if rx.search(re.sub(r'\s+', ' ', it.header))]
             if len(found) != 1:
+                if grp:
+                    # an optional group (types + the one function that needs them): only that function is lost
+                    out.failed_groups[grp] = '%s: %r matches %d items' % (relfile, want['match'], len(found))
+                    continue
                 raise LostAnchor('%s: %r matches %d items' % (relfile, want['match'], len(found)))
             it = found[0]
+            if grp and want['kind'] == 'method_as_fn':
+                try:
+                    inner = find_items(src[it.body_open + 1:it.body_close], relfile)
+                    ms = [sub for sub in inner if header_kind_name(sub.header) == ('fn', want['method'])]
+                    if len(ms) != 1: raise LostAnchor('%s: method %s not found in %s' % (relfile, want['method'], want['match']))
+                    emit_fn(out, ms[0], relfile, want['as'], contracts,
+                            as_free={'prefix': want['as'], 'subst': want.get('subst', []), 'body_subst': want.get('body_subst', [])})
+                    out.emit('')
+                except LostAnchor as e:
+                    out.failed_groups[grp] = str(e)
+                continue
             if want['kind'] == 'match_as_fn':
                 try:
                     emit_match_as_fn(out, it, relfile, want, contracts)
@@ -479,6 +512,13 @@ def extract(repo, plan, contracts, out):
                 emit_type(out, it, relfile)
             elif want['kind'] == 'fn':
                 emit_fn(out, it, relfile, '-', contracts)
+                out.emit('')
+            elif want['kind'] == 'method_as_fn':
+                inner = find_items(src[it.body_open + 1:it.body_close], relfile)
+                ms = [sub for sub in inner if header_kind_name(sub.header) == ('fn', want['method'])]
+                if len(ms) != 1: raise LostAnchor('%s: method %s not found in %s' % (relfile, want['method'], want['match']))
+                emit_fn(out, ms[0], relfile, want['as'], contracts,
+                        as_free={'prefix': want['as'], 'subst': want.get('subst', []), 'body_subst': want.get('body_subst', [])})
                 out.emit('')
             elif want['kind'] == 'impl_as_fns':
                 cname = want['as']
@@ -522,6 +562,14 @@ def extract(repo, plan, contracts, out):
                 out.emit('')
             else:
                 raise LostAnchor('bad plan kind')
+    # functions of failed optional groups: their contracts exist but the function could not be extracted
+    for grp, why in out.failed_groups.items():
+        for k, c in contracts.items():
+            if not c.used and grp in getattr(c, 'groups', [grp]) and k[1] == GROUP_CONTAINERS.get(grp):
+                c.used = True
+                qual = (k[1] + '::' if k[1] != '-' else '') + k[2]
+                out.unreachable[qual] = 'lost anchor: ' + why
+                out.log.append({'rule': 'FALLBACK', 'fn': qual, 'what': 'not extracted: ' + why})
     unused = [k for k, c in contracts.items() if not c.used]
     if unused:
         raise LostAnchor('contracts without a function in the tree: %r' % unused)
